@@ -45,12 +45,16 @@ StyleOK(sp) ==
     [] sp.style \in {"ROW", "$ROW", "RROW", "ROWFULL"} -> WholeRows(sp) /\ ~WholeCols(sp)
     [] sp.style \in {"COL", "$COL", "CCOL", "COLFULL"} -> WholeCols(sp) /\ ~WholeRows(sp)
     [] OTHER -> FALSE
+\* workbooks: 0 the host's own (BOOK.XLSX), 1 OTHER.XLSX (also external link [1]),
+\* 2 a file whose name starts with digits (2020 DATA.XLSX); written with a directory
+\* (dirfile: 'D/[OTHER.XLSX]SHEET1'!A1) it is another workbook than the same name without
 QualOK(sp) ==
   /\ (sp.ss = "none" => sp.sh = 0 /\ sp.bs = "none")     \* no sheet part: the host's sheet
   /\ (sp.bs = "none" => sp.bk = 0)                        \* no workbook part: the host's workbook
   /\ (sp.bs = "id" => sp.bk = 1)                          \* [1] is the first external link
+  /\ (sp.bs = "dirfile" => sp.bk \in {1, 2})
 
-Denote(sp) == <<sp.bk, sp.sh, sp.c1, sp.r1, sp.c2, sp.r2>>
+Denote(sp) == <<sp.bk + (IF sp.bs = "dirfile" THEN 10 ELSE 0), sp.sh, sp.c1, sp.r1, sp.c2, sp.r2>>
 
 Styles == {"A1", "a1", "$A$1", "A$1", "R1C1", "r1c1", "RED", "REL", "ROW", "$ROW", "RROW",
            "ROWFULL", "COL", "$COL", "CCOL", "COLFULL"}
@@ -64,7 +68,7 @@ NoSp == [style |-> "-"]
 Init ==
   \/ /\ mode = "col" /\ col \in 1..MaxCol /\ sp = NoSp
   \/ /\ mode = "sp" /\ col = 0
-     /\ sp \in {x \in [bk : 0..1, sh : 0..2, c1 : Cols, r1 : Rows, c2 : Cols, r2 : Rows,
+     /\ sp \in {x \in [bk : 0..2, sh : 0..2, c1 : Cols, r1 : Rows, c2 : Cols, r2 : Rows,
                        style : Styles, ss : SheetStyles, bs : BookStyles,
                        hc : {h[1] : h \in Hosts}, hr : {h[2] : h \in Hosts}] :
                  /\ RectOK(x.c1, x.r1, x.c2, x.r2) /\ StyleOK(x) /\ QualOK(x)
